@@ -168,4 +168,8 @@ class MemoSim:
 
     def memory(self):
         """{elem: value} of computed elements currently held (ItemSpace elements excluded)"""
-        return {e: v for e, v in self.values.items() if e in self.held and e[1] is not None}
+        mem = {e: v for e, v in self.values.items() if e in self.held and e[1] is not None}
+        for e in self.held:
+            if e[1] is None:
+                mem[e] = True       # existing ItemSpaces
+        return mem
